@@ -41,6 +41,12 @@ type LimitsCase struct {
 	// point other than Load* under the budget / context
 	Prelude []*Node    `json:"prelude,omitempty"`
 	Entry   *EntrySpec `json:"entry,omitempty"`
+	// Faults are host misbehaviour that is part of the program (a host
+	// builtin that panics, fails or returns nothing at a given hit): the
+	// unlimited reference run meets them too, so every self-reference oracle
+	// applies unchanged -- and the evaluation after a recovered host panic
+	// must start with a full budget like any other
+	Faults []FaultSpec `json:"faults,omitempty"`
 
 	hintBudget int64
 	hintCancel int64
@@ -127,8 +133,15 @@ func (limitsEngine) Gen(r *Rand, tier string) any {
 			Callbacks: r.Chance(1, 2), Stderr: r.Chance(1, 4),
 			Budget: r.Range(30, 160), MaxFuel: r.Range(2, 7),
 		}
+		o.FP = r.Chance(1, 3)
 		g := NewPGen(r.Fork(), o)
 		c.Forms = g.Program(r.Range(2, 5))
+		if o.FP && g.fpN > 0 {
+			for i := r.Range(1, 2); i > 0; i-- {
+				c.Faults = append(c.Faults, FaultSpec{FP: r.Range(1, g.fpN), Hit: r.Pick([]int{0, 6, 2, 1}),
+					Kind: PickStr(r, []string{"panic", "panic", "panic", "error", "nil"}), Cond: "sim-fault"})
+			}
+		}
 		g2 := NewPGen(r.Fork(), GenOpts{Budget: 25, MaxFuel: 3})
 		g2.globs = g.globs
 		c.Forms2 = []*Node{g2.Probe(g2.E(3))}
@@ -376,13 +389,14 @@ type limRun struct {
 	out Outcome
 }
 
-func runLimits(k Knobs, budget int64, cancelAt int64, forms []*Node) (*limRun, error) {
+func runLimits(k Knobs, budget int64, cancelAt int64, forms []*Node, faults []FaultSpec) (*limRun, error) {
 	k.MaxSteps = budget
 	k.UseSimCtx = true
 	w, err := NewWorld(k)
 	if err != nil {
 		return nil, err
 	}
+	w.Faults = faults
 	w.Ctx.CancelAt = cancelAt
 	out := w.Load(forms)
 	return &limRun{w: w, out: out}, nil
@@ -392,7 +406,7 @@ func runLimits(k Knobs, budget int64, cancelAt int64, forms []*Node) (*limRun, e
 // and a cancellation index.
 func (c *LimitsCase) run(k Knobs, budget, cancelAt int64) (*limRun, error) {
 	if c.Entry == nil {
-		return runLimits(k, budget, cancelAt, sentinelWrap(c.Forms, c.Sentinel))
+		return runLimits(k, budget, cancelAt, sentinelWrap(c.Forms, c.Sentinel), c.Faults)
 	}
 	k.MaxSteps = hugeBudget
 	k.UseSimCtx = false
@@ -528,6 +542,9 @@ func (e limitsEngine) runGeneral(c *LimitsCase, st *Stats) *Violation {
 	st.Inc("programs")
 	if ref.out.IsErr {
 		st.Inc("ref_outcome_error")
+	}
+	for _, kind := range ref.w.Fired {
+		st.Inc("fault_host_" + kind + "_in_program")
 	}
 	// oracle 7: every counted step polled the context
 	for _, ev := range ref.w.Events {
@@ -845,7 +862,7 @@ func noteLanding(st *Stats, kind string, ref *limRun, pos int64) {
 
 // runMeter checks the metering law on a loop of known turn count.
 func (e limitsEngine) runMeter(c *LimitsCase, st *Stats) *Violation {
-	ref, err := runLimits(c.Knobs, hugeBudget, 0, c.Forms)
+	ref, err := runLimits(c.Knobs, hugeBudget, 0, c.Forms, nil)
 	if err != nil {
 		return Violf("harness", "%v", err)
 	}
@@ -865,9 +882,9 @@ func (e limitsEngine) runMeter(c *LimitsCase, st *Stats) *Violation {
 		for _, kind := range []string{"budget", "cancel"} {
 			var run *limRun
 			if kind == "budget" {
-				run, err = runLimits(c.Knobs, pos, 0, c.Forms)
+				run, err = runLimits(c.Knobs, pos, 0, c.Forms, nil)
 			} else {
-				run, err = runLimits(c.Knobs, hugeBudget, pos, c.Forms)
+				run, err = runLimits(c.Knobs, hugeBudget, pos, c.Forms, nil)
 			}
 			if err != nil {
 				return Violf("harness", "%v", err)
@@ -888,7 +905,7 @@ func (e limitsEngine) runMeter(c *LimitsCase, st *Stats) *Violation {
 func (e limitsEngine) runStruct(c *LimitsCase, st *Stats) *Violation {
 	c.hintLimit = 0
 	base := c.Knobs
-	ref, err := runLimits(base, hugeBudget, 0, c.Forms)
+	ref, err := runLimits(base, hugeBudget, 0, c.Forms, nil)
 	if err != nil {
 		return Violf("harness", "%v", err)
 	}
@@ -925,7 +942,7 @@ func (e limitsEngine) runStruct(c *LimitsCase, st *Stats) *Violation {
 		case "logical":
 			k.MaxLogic = lim
 		}
-		run, err := runLimits(k, hugeBudget, 0, c.Forms)
+		run, err := runLimits(k, hugeBudget, 0, c.Forms, nil)
 		if err != nil {
 			return Violf("harness", "%v", err)
 		}
@@ -1068,6 +1085,11 @@ func (e limitsEngine) Shrink(ci any) []any {
 	if len(c.Forms2) > 0 {
 		d := cp()
 		d.Forms2 = nil
+		out = append(out, d)
+	}
+	for j := range c.Faults {
+		d := cp()
+		d.Faults = append(append([]FaultSpec(nil), c.Faults[:j]...), c.Faults[j+1:]...)
 		out = append(out, d)
 	}
 	if c.Knobs != (Knobs{UseSimCtx: true}) {
